@@ -293,7 +293,7 @@ def _c12(tier, seed):
     runs = ["H_C12_missing()"] + ["H_C12_paths(%d)" % k for k in range(5)]
     for kl, hl, ho in ([(0, 0, 0), (1, 2, 1), (3, 8, 4), (5, 3, 9)] if q else [(a, b, c) for a in range(0, 7) for b in (0, 3, 8) for c in (0, 5, 12)]):
         runs.append("H_C12_codec(%d,%d,%d)" % (kl, hl, ho))
-    runs += ["H_C12_store_load(3,3,1)", "H_C12_store_load(3,3,0)", "H_C12_truncated(3,3)"]
+    runs += ["H_C12_store_load(3,3,1)", "H_C12_store_load(3,3,0)", "H_C12_store_load2(6,5,2,1)", "H_C12_store_load2(1,0,4,6)", "H_C12_truncated(3,3)"]
     if not q:
         runs += ["H_C12_store_load(8,10,1)", "H_C12_truncated(9,12)"]
     return [dict(name="files", pkg="internal/session", harness=["harness/session/c12.go"], runs=runs, solver="z3", walllimit=300, timeout=1500,
@@ -302,7 +302,7 @@ def _c12(tier, seed):
 PROPS = {
     "C12": dict(
         jobs=_c12,
-        bounds={"quick": "codec round trip for keys/hashes of lengths {0,1,3,5}/{0,2,8,3} (every residue mod 3 of base64), every 64-bit salt, hostnames of 0..9 bytes over [A-Za-z0-9.:_[]-]; Store/Load/Store/Load on one path with every pair of modification times t1 <= t2 <= t1+255 s (equality included), same and fresh loader; missing file; relative, ./relative, sub-directory, absolute paths and the bare file name; the written file cut at every byte",
+        bounds={"quick": "codec round trip for keys/hashes of lengths {0,1,3,5}/{0,2,8,3} (every residue mod 3 of base64), every 64-bit salt, hostnames of 0..9 bytes over [A-Za-z0-9.:_[]-]; Store/Load/Store/Load on one path with every pair of modification times t1 <= t2 <= t1+255 s (equality included), same and fresh loader, second session shorter or longer than the first; missing file; relative, ./relative, sub-directory, absolute paths and the bare file name; the written file cut at every byte",
                 "thorough": "keys 0..6, hashes {0,3,8}, hostnames {0,5,12}; longer sessions for the history and truncation scenarios"},
         outside="real file I/O and the OS's torn-write behaviour (symbolic one-level file system: os.Stat/ReadFile/WriteFile/Chtimes/Truncate modelled); real encoding/json (modelled for flat string structs without escapes: hostnames needing JSON escaping, non-ASCII, are outside); resuming a client from the store (NewMTProto)",
         assumptions=["encoding/base64.StdEncoding modelled exactly by bit arithmetic (line breaks in input are not skipped)", "encoding/json modelled as a canonical writer / object parser for structs of plain strings", "os file functions modelled by an in-memory map; WriteFile stamps the stub clock"],
